@@ -110,6 +110,15 @@ fn main() {
         "c17" => c17::main(&a),
         "miri" => miri::main(&a),
         "tsan" => tsan::main(&a),
+        "dump" => {
+            // debugging aid: canonical dump of what a decoder makes of a file given as hex
+            let data = canon::unhex(&a.str("hex", ""));
+            let d = if a.str("fmt", "bin") == "bin" { rbx_binary::from_reader(&data[..]).map_err(|e| e.to_string()) } else { rbx_xml::from_reader_default(&data[..]).map_err(|e| e.to_string()) };
+            match d {
+                Ok(d) => println!("{}", serde_json::to_string_pretty(&canon::dump_decoded(&d)).unwrap()),
+                Err(e) => println!("error: {}", e),
+            }
+        }
         "sweep" => sweep::main(&a),
         "c06" => c06::main(&a),
         "c07" => c07::main(&a),
